@@ -44,11 +44,15 @@ pub struct ProjOpts {
     pub bom_chance: u32,
     /// chance (of 256) that a template gets tuple / anonymous-component statements
     pub sugar_chance: u32,
+    /// chance (of 256) that an earlier (possibly included) file is named on the command line too,
+    /// and that the named files are given with the included ones first
+    pub name_more_chance: u32,
+    pub reverse_chance: u32,
 }
 
 impl Default for ProjOpts {
     fn default() -> Self {
-        ProjOpts { max_files: 3, max_defs: 4, comments: true, main_component: true, clean: false, bom_chance: 0, sugar_chance: 0 }
+        ProjOpts { max_files: 3, max_defs: 4, comments: true, main_component: true, clean: false, bom_chance: 0, sugar_chance: 0, name_more_chance: 100, reverse_chance: 60 }
     }
 }
 
@@ -371,11 +375,11 @@ pub fn gen_project(t: &mut Tape, o: ProjOpts) -> GenProject {
     // named files: the last one and possibly others
     let mut named = vec![nfiles - 1];
     for i in 0..nfiles - 1 {
-        if t.chance(100) {
+        if t.chance(o.name_more_chance) {
             named.push(i);
         }
     }
-    if t.chance(60) {
+    if t.chance(o.reverse_chance) {
         named.reverse();
     }
     GenProject { files, named, failing_defs, failing_templates, bom_files, sugared_defs, recursive_templates }
